@@ -26,12 +26,14 @@ LEVEL_TEXT = ("Fault enumeration on the real code: for generated programs every 
               "over the spec function cnt; StorageBase.mask_linear is an assumed contract checked per backend under "
               "C07).")
 LEVEL_TEXT += (" Also proved: how the result of a function without an element-wise MapSpec reaches the store - _single_dump_single_output (the entry of the output name holds the output afterwards, nothing else changes; KeyError / AssertionError exactly for a missing name or a storage array) and _dump_single_output (outputs found in the store are handed on unchanged; otherwise every output name gets the value picked for it, in order, and its entry holds it; _utils.dump is an assumed contract on the store view - its atomicity is the kill enumeration's business).")
+LEVEL_TEXT += (" Also proved: equal_dicts (how map(cleanup=False) compares the new inputs / defaults with the recorded ones: other key sets or a comparable pair that differs -> False, else None if some pair could not be compared, else True), relative to _is_equal as an assumed partial relation and the assumed fact that dicts with equal key sets have equal len.")
 LEVEL_NOTE = ("Bounds: programs with <=8 user calls, storages file_array / dict / shared_memory_dict, sequential (and a "
               "thread pool for the raise faults). Not covered (N/A for this family): crashes inside mkdir/rmtree, "
               "durability without fsync, killing individual pool workers.")
 TECHNIQUE = ("fault enumeration of the resume contract on the real code (raise points, kill points, torn writes); the "
              "resume decision _existing_and_missing_indices discharged by z3")
 TECHNIQUE += ('; the store writes _single_dump_single_output / _dump_single_output discharged by z3')
+TECHNIQUE += ('; equal_dicts discharged by z3')
 EXPLANATION = LEVEL_TEXT
 RULE = ("program x storage x fault; faults: raise at call k (all k), raise at k1 then k2, kill before the n-th "
         "open-for-write (all n), torn n-th write (all n); distinct = distinct (program, storage, fault); non-trivial = "
@@ -46,6 +48,7 @@ def registry():
 
 
 def proof_items():
+    from contracts import small
     from contracts import misc
     from vf.driver import ProofItem
     # the resume decision: which elements are recomputed (missing) and which are kept (existing)
@@ -58,7 +61,10 @@ def proof_items():
             ProofItem(store.dump_single_output, gen=store.dso_gen, registry=sreg),
             # ... and how it is read back: by a later function, and by a resumed run that decides what is already there
             ProofItem(store.load_from_store, gen=store.lfs_gen, call=store.lfs_call,
-                      registry=lambda: {**{c.short: c for c in store.LOAD}, **{c.name: c for c in store.LOAD}})]
+                      registry=lambda: {**{c.short: c for c in store.LOAD}, **{c.name: c for c in store.LOAD}}),
+            # "re-running with the same inputs": how the new inputs / defaults are compared with the recorded ones
+            ProofItem(small.equal_dicts, gen=small.ed_gen, call=small.ed_call,
+                      registry=lambda: {**{c.short: c for c in small.EQUAL_DICTS}, **{c.name: c for c in small.EQUAL_DICTS}})]
 
 
 def _run_child(job):
